@@ -84,10 +84,11 @@ type Reader struct {
 // (a count larger than the input is still reported: it is what reaches make()). Lax "impl" = only these tolerances.
 func (r *Reader) tol() bool { return r.Lax != "" }
 
-// mode is Lax without the "+strictblob" option (which keeps reporting a byte
-// string longer than the remaining input although the implementation accepts it:
-// the announced length is what it allocates).
-func (r *Reader) mode() string { return strings.TrimSuffix(r.Lax, "+strictblob") }
+// mode is Lax without the "+alloc" option. With "+alloc" a count or byte-string
+// length larger than the remaining input is still reported although the
+// implementation goes on (to an EOF error or a short read): the announced size is
+// what it passes to make().
+func (r *Reader) mode() string { return strings.TrimSuffix(r.Lax, "+alloc") }
 
 type rejectPanic struct{ r *Reject }
 
@@ -138,6 +139,12 @@ func (r *Reader) Count(path string, elemMin, elemSize int) int {
 	off := r.Pos
 	n := r.CompactInt(path)
 	remain := uint64(len(r.Data) - r.Pos)
+	if r.tol() && !strings.HasSuffix(r.Lax, "+alloc") {
+		if n > 1<<24 {
+			n = 1 << 24 // the element loop ends at the first missing byte anyway
+		}
+		return int(n)
+	}
 	if elemMin > 0 && (n > remain || n*uint64(elemMin) > remain) {
 		panic(rejectPanic{&Reject{Reason: RCountTooBig, Off: off, Path: path,
 			Detail: fmt.Sprintf("count %d x >=%d bytes, %d remain", n, elemMin, remain), Count: n, ElemSize: elemSize}})
@@ -153,7 +160,7 @@ func (r *Reader) Blob(path string) []byte {
 	off := r.Pos
 	n := r.CompactInt(path)
 	remain := len(r.Data) - r.Pos
-	if n > uint64(remain) && r.tol() && !strings.HasSuffix(r.Lax, "+strictblob") && remain > 0 && n < 1<<26 {
+	if n > uint64(remain) && r.tol() && !strings.HasSuffix(r.Lax, "+alloc") && remain > 0 && n < 1<<26 {
 		return r.Take(remain, path) // short read accepted by the implementation
 	}
 	if n > uint64(remain) {
@@ -321,16 +328,7 @@ func (r *Reader) Value(t reflect.Type, path string) {
 		}
 		return
 	case tStorage:
-		var n int
-		if r.mode() == "storage" {
-			c := r.CompactInt(path)
-			if c > 1<<20 {
-				r.fail(RCountTooBig, path, "count", r.Pos)
-			}
-			n = int(c)
-		} else {
-			n = r.Count(path, 3, 16)
-		}
+		n := r.Count(path, 3, 40)
 		var prev []byte
 		for i := 0; i < n; i++ {
 			p := fmt.Sprintf("%s[%d]", path, i)
